@@ -58,3 +58,7 @@ open Cherab.Props.C17
 #print axioms estimate_linear
 #print axioms emissivity_is_sample_mean
 #print axioms unbiased_partial
+-- grid state histories
+#print axioms grid_total_history
+#print axioms grid_trace_const
+#print axioms grid_ctor_total
